@@ -70,9 +70,8 @@ class Ballot:
             return False
 
         # Check id
-        if self.id is not None:
-            if self.id != other.id:
-                return False
+        if self.id != other.id:
+            return False
 
         # Check ranking
         if self.ranking != other.ranking:
@@ -83,14 +82,12 @@ class Ballot:
             return False
 
         # Check voters
-        if self.voter_set is not None:
-            if self.voter_set != other.voter_set:
-                return False
+        if self.voter_set != other.voter_set:
+            return False
 
         # Check scores
-        if self.scores is not None:
-            if self.scores != other.scores:
-                return False
+        if self.scores != other.scores:
+            return False
         return True
 
     def __hash__(self):
